@@ -19,6 +19,7 @@ import (
 	"go/constant"
 	"go/token"
 	"go/types"
+	"os"
 	"reflect"
 	"sort"
 	"strings"
@@ -201,6 +202,8 @@ type AState struct {
 	steps   int
 }
 
+var debugCalls = os.Getenv("XPDEBUG") == "calls"
+
 func newAState() *AState {
 	n := 0
 	return &AState{heap: map[int]*AObj{}, nextID: &n, visits: map[*ssa.BasicBlock]int{}, globals: map[*ssa.Global]*AObj{}}
@@ -283,6 +286,7 @@ type AInterp struct {
 	MaxPaths  int
 	paths     int
 	InitMode  bool // interpreting package initialisation: unknown globals are zero-valued objects
+	CallValue AVal // during hooks.Call: the value being called (for calls through a function value)
 }
 
 func (w *World) newInterp(h AHooks) *AInterp {
@@ -567,6 +571,20 @@ func (ai *AInterp) store(st *AState, addr, val AVal) {
 	}
 	o := st.obj(addr.Obj)
 	f := addr.Field
+	// a whole struct value assigned to a struct variable: the fields are copied
+	if f < 0 && val.Kind == avStruct && val.Obj != nil {
+		if _, isStruct := o.Type.Underlying().(*types.Struct); isStruct && o.Type != nil {
+			src := st.obj(val.Obj)
+			if src != o {
+				o.Fields = make(map[int]AVal, len(src.Fields))
+				for k, v := range src.Fields {
+					o.Fields[k] = v
+				}
+				o.Extern = src.Extern
+			}
+			return
+		}
+	}
 	if f < 0 {
 		f = 0
 	}
@@ -875,6 +893,13 @@ func (ai *AInterp) eval(fr *aFrame, st *AState, v ssa.Value) AVal {
 		if mv := fr.get(ai, st, x.X); mv.Kind == avPtr && mv.Field < 0 && st.obj(mv.Obj).IsMap && !st.obj(mv.Obj).Opaque {
 			if id, ok := keyID(fr.get(ai, st, x.Index)); ok {
 				val, found := st.obj(mv.Obj).Map[id]
+				if debugCalls {
+					fmt.Printf("  lookup %s -> found=%v %s", id, found, val.String())
+					if val.Obj != nil {
+						fmt.Printf(" fields=%v heap=%v", st.obj(val.Obj).Fields, st.heap[val.Obj.ID] != nil)
+					}
+					fmt.Println()
+				}
 				if !found {
 					val = zeroOf(x.X.Type().Underlying().(*types.Map).Elem())
 				}
@@ -936,9 +961,31 @@ func (ai *AInterp) call(fr *aFrame, st *AState, site ssa.CallInstruction) []AOut
 	for _, a := range com.Args {
 		args = append(args, fr.get(ai, st, a))
 	}
+	// a bound method value (p.parseStep handed around as func(node) node): the
+	// call of the method itself with the bound receiver
+	if callee != nil && strings.HasPrefix(callee.Synthetic, "bound method wrapper") && len(free) == 1 {
+		if obj, ok := callee.Object().(*types.Func); ok {
+			if m := ai.w.Prog.FuncValue(obj); m != nil {
+				callee = m
+				args = append([]AVal{free[0]}, args...)
+				free = nil
+			}
+		}
+	}
+	if debugCalls {
+		cn := "<nil>"
+		if callee != nil {
+			cn = callee.String()
+		}
+		fmt.Printf("  call %s -> %s (value %s) depth=%d\n", site.String(), cn, fr.get(ai, st, com.Value).String(), st.depth)
+	}
 	// builtins
 	if b, ok := com.Value.(*ssa.Builtin); ok {
 		return []AOutcome{{St: st, Ret: ai.builtin(st, b.Name(), args, site)}}
+	}
+	ai.CallValue = AVal{}
+	if !com.IsInvoke() {
+		ai.CallValue = fr.get(ai, st, com.Value)
 	}
 	if callee != nil && ai.hooks.Record != nil && ai.hooks.Record(callee) {
 		st.Trace = append(st.Trace, AEvent{Kind: "call", Site: site, Callee: callee, Args: args, Depth: st.depth})
@@ -951,6 +998,27 @@ func (ai *AInterp) call(fr *aFrame, st *AState, site ssa.CallInstruction) []AOut
 	own := callee != nil && ai.w.inPkg(callee)
 	if callee != nil && !own && callee.Synthetic != "" && callee.Object() != nil && callee.Object().Pkg() == ai.w.Types {
 		own = true // wrapper of a promoted method of this package
+	}
+	if callee != nil && callee.String() == "unicode.In" && len(args) == 2 {
+		// In(r, tables...): membership in one of range tables the client knows
+		if k, ok := args[0].Int(); ok {
+			if tabs, ok := st.elems(args[1]); ok {
+				known, in := true, false
+				for _, tv := range tabs {
+					t, ok := tv.Any.(*unicode.RangeTable)
+					if !ok {
+						known = false
+						break
+					}
+					if unicode.Is(t, rune(k)) {
+						in = true
+					}
+				}
+				if known {
+					return []AOutcome{{St: st, Ret: aBool(in)}}
+				}
+			}
+		}
 	}
 	if callee == nil || !own || len(callee.Blocks) == 0 {
 		var v ssa.Value
@@ -1138,6 +1206,7 @@ func (w *World) initState() *AState {
 	if initFn != nil {
 		ai := w.newInterp(AHooks{})
 		ai.InitMode = true
+		ai.MaxVisits = 300 // initialisers loop over constant tables: deterministic, no forking
 		ai.MaxDepth = 3
 		ai.MaxSteps = 200000
 		outs := ai.Exec(initFn, nil, nil, st)
@@ -1399,4 +1468,17 @@ func (w *World) readOnlyGlobal(g *ssa.Global) bool {
 	}
 	w.roGlobalCache[g] = ro
 	return ro
+}
+
+// Float: the value as a float64 constant (integers included).
+func (v AVal) Float() (float64, bool) {
+	if v.Kind != avConst || v.C == nil {
+		return 0, false
+	}
+	switch v.C.Kind() {
+	case constant.Int, constant.Float:
+		f, _ := constant.Float64Val(constant.ToFloat(v.C))
+		return f, true
+	}
+	return 0, false
 }
